@@ -7,7 +7,9 @@ sys.path.insert(0, VERIF)
 from sa import alpha  # noqa: E402
 warnings.simplefilter('ignore')
 repo = os.environ.get('SPYNE_REPO', '/repo')
+from sa import tablenorm  # noqa: E402
 out = {}
+trees = {}
 for root, dirs, files in os.walk(os.path.join(repo, 'spyne')):
     dirs[:] = [d for d in dirs if d != 'test']
     for f in sorted(files):
@@ -16,10 +18,22 @@ for root, dirs, files in os.walk(os.path.join(repo, 'spyne')):
         p = os.path.join(root, f)
         rel = os.path.relpath(p, repo)
         try:
-            tree = ast.parse(open(p, encoding='utf-8').read())
+            trees[rel] = ast.parse(open(p, encoding='utf-8').read())
         except SyntaxError:
             continue
+sigs = tablenorm.signature_table(trees.values())
+out['__signatures__'] = sigs
+for rel, tree in sorted(trees.items()):
+    if True:
+        tablenorm.kw_to_positional(tree, sigs)
         t = {q: v for q, v in alpha.module_table(tree).items() if v}
+        t['__consts__'] = sorted({x.id for st in tree.body
+                                  if isinstance(st, (ast.Assign, ast.AugAssign,
+                                                     ast.AnnAssign))
+                                  for tg in (st.targets if isinstance(
+                                      st, ast.Assign) else [st.target])
+                                  for x in ast.walk(tg)
+                                  if isinstance(x, ast.Name)})
         t['__functions__'] = sorted(q for q, _ in alpha.outer_functions(tree))
         t['__params__'] = {q: alpha.param_list(fn)
                            for q, fn in alpha.outer_functions(tree)}
@@ -34,6 +48,7 @@ if '--check' in sys.argv:
 else:
     open(alpha.TABLE_FILE, 'w').write(txt + '\n')
     print('%d modules, %d functions, %d locals' % (
-        len(out), sum(len(v['__functions__']) for v in out.values()),
-        sum(len(x) for v in out.values() for k, x in v.items()
-            if not k.startswith('__'))))
+        len(out) - 1, sum(len(v['__functions__']) for k_, v in out.items()
+                          if k_ != '__signatures__'),
+        sum(len(x) for k_, v in out.items() if k_ != '__signatures__'
+            for k, x in v.items() if not k.startswith('__'))))
